@@ -93,7 +93,7 @@ class WorldScenario(BaseScenario):
         cfg = {
             "version": rng.choices([2.1, 2.0, 1.0], [6, 3, 1])[0],
             "start": rng.choices(["disk", "bytesio"], [5, 1])[0],
-            "two_ws": rng.random() < (0.5 if self.prop in ("C06", "C12", "C02", "C09") else 0.25),
+            "two_ws": rng.random() < (0.5 if self.prop in ("C06", "C12", "C02", "C09") else 0.4 if self.prop == "C01" else 0.25),
             "gc": rng.choices(["none", "op", "io", "line"], [2, 4, 3, 1])[0],
             "gc_density": rng.choice([0.15, 0.4, 0.8]),
             "keep_prob": rng.choice([0.0, 0.3, 0.7]),
